@@ -36,17 +36,17 @@ import (
 // world
 
 type c32World struct {
-	spec      chain.Spec
-	nodes     []crypto.PrivateKey // staked servicers; all on 0001 (and 0040), some on 0021
-	stranger  crypto.PrivateKey   // funded account that is not a node
-	apps      []crypto.PrivateKey // app0 (0001,0021[,0040]), app1 (0001), appU (0001, may unstake), ghost (never staked)
-	client    crypto.PrivateKey
-	victim    int   // node index made absent (-1: none)
-	absentAt  int64 // first absent block
-	unstakeAt int64 // appU begin-unstake height (0: never)
+	spec                                chain.Spec
+	nodes                               []crypto.PrivateKey // staked servicers; all on 0001 (and 0040), some on 0021
+	stranger                            crypto.PrivateKey   // funded account that is not a node
+	apps                                []crypto.PrivateKey // app0 (0001,0021[,0040]), app1 (0001), appU (0001, may unstake), ghost (never staked)
+	client                              crypto.PrivateKey
+	victim                              int   // node index made absent (-1: none)
+	absentAt                            int64 // first absent block
+	unstakeAt                           int64 // appU begin-unstake height (0: never)
 	bps, win, exp, minProofs, snc, rttm int64
-	firstSBH  int64
-	desc      string
+	firstSBH                            int64
+	desc                                string
 }
 
 const (
@@ -95,7 +95,9 @@ func genC32World(rt *rapid.T) *c32World {
 	for w.firstSBH%w.bps != 1%w.bps {
 		w.firstSBH++
 	}
-	fund := func(k crypto.PrivateKey, bal int64) { s.Accounts = append(s.Accounts, chain.AccountSpec{Key: k, Balance: bal}) }
+	fund := func(k crypto.PrivateKey, bal int64) {
+		s.Accounts = append(s.Accounts, chain.AccountSpec{Key: k, Balance: bal})
+	}
 	app0Unsupported := rapid.Bool().Draw(rt, "app0On0040")
 	for i := 0; i < nNodes; i++ {
 		k := chain.Key(fmt.Sprintf("node%d", i))
@@ -387,14 +389,15 @@ type c32Live struct {
 }
 
 type c32Run struct {
-	c      *harness.Case
-	w      *c32World
-	n      *chain.Node
-	snaps  map[int64]c32Snap
-	live   map[string]*c32Live
-	paid   map[string]int // payments per (node, session header)
-	expired map[string]bool
-	entr   int64
+	c          *harness.Case
+	w          *c32World
+	n          *chain.Node
+	snaps      map[int64]c32Snap
+	live       map[string]*c32Live
+	paid       map[string]int // payments per (node, session header)
+	expired    map[string]bool
+	lastPaidAt map[string]int64
+	entr       int64
 	// bookkeeping for the non-trivial rule: per session header
 	rewardedHdr map[string]bool
 	rejectedHdr map[string]bool
@@ -635,7 +638,7 @@ func runC32(rt *rapid.T, c *harness.Case, w *c32World, plans []*c32Plan) {
 	}
 	rf.RegisterServicer(self, work, 0)
 
-	r := &c32Run{c: c, w: w, n: n, snaps: map[int64]c32Snap{}, live: map[string]*c32Live{}, paid: map[string]int{}, expired: map[string]bool{}, rewardedHdr: map[string]bool{}, rejectedHdr: map[string]bool{}}
+	r := &c32Run{c: c, w: w, n: n, snaps: map[int64]c32Snap{}, live: map[string]*c32Live{}, paid: map[string]int{}, expired: map[string]bool{}, lastPaidAt: map[string]int64{}, rewardedHdr: map[string]bool{}, rejectedHdr: map[string]bool{}}
 	r.snapshot()
 	feeCollector := n.App.VerifAccountKeeper().GetModuleAddress(authTypes.FeeCollectorName).String()
 
@@ -878,8 +881,23 @@ func (r *c32Run) deliverProof(h int64, sb *c32Sub, feeCollector string, validSee
 	r.paid[key]++
 	if r.paid[key] > 1 {
 		c.Label("paid-twice-same-session")
-		c.Violation("C32/reward/second-payment-same-node-session", "%s: payment #%d for the same (node, app, chain, session)", sb.desc, r.paid[key])
+		// Known overlap (see known_findings.json): in the one block whose height is sessionHeight + window*blocksPerSession a claim
+		// is still accepted while a proof is already accepted, so claim -> proof -> claim again -> proof again pays repeatedly.
+		// Only exactly that shape carries the known signature; any other repeated payment reports under its own signature.
+		overlap := w.ph(hdr.SessionBlockHeight)
+		switch {
+		case lc != nil && lc.accepted == overlap && h == overlap:
+			c.Violation("C32/reward/second-payment-same-node-session", "%s: payment #%d for the same (node, app, chain, session), after a claim re-submitted and accepted in the overlap block %d", sb.desc, r.paid[key], h)
+		case lc != nil && lc.accepted == overlap && r.lastPaidAt[key] == overlap:
+			// same cause, the second proof merely arrives in a later block
+			c.Violation("C32/reward/second-payment-later-block-after-overlap-reclaim", "%s: payment #%d for the same (node, app, chain, session); first payment and re-claim both in the overlap block %d", sb.desc, r.paid[key], overlap)
+		case lc != nil && lc.accepted >= r.lastPaidAt[key]:
+			c.Violation("C32/reward/second-payment-other-block", "%s: payment #%d for the same (node, app, chain, session) after a re-claim accepted at height %d (overlap block is %d)", sb.desc, r.paid[key], lc.accepted, overlap)
+		default:
+			c.Violation("C32/reward/second-payment-without-reclaim", "%s: payment #%d for the same (node, app, chain, session) without a newly accepted claim", sb.desc, r.paid[key])
+		}
 	}
+	r.lastPaidAt[key] = h
 	if stillStored {
 		c.Violation("C32/reward/claim-not-deleted", "%s: claim still stored after its payment", sb.desc)
 	}
